@@ -15,7 +15,7 @@ Proof. cbn [step]. destruct (pm_register (c_pid c) id) as [b a]. intro E. inject
 (* an acknowledged exchange from [cs] to [cr] leaves the receiver role of [cs] and the sender role of [cr] alone *)
 Lemma exchange_reverse gs gr gx cs cr p q : pair_inv gs cs cr -> v311_pub p q -> q = 1 \/ q = 2 -> OWN gx cr ->
   match exchange gs gr cs cr p with
-  | Done cs' cr' _ => OWN gx cr' /\ c_qos2 cs' = c_qos2 cs
+  | Done cs' cr' _ => OWN gx cr' /\ c_qos2 cs' = c_qos2 cs /\ F8 cr' cr
   | _ => True
   end.
 Proof.
@@ -45,7 +45,7 @@ Proof.
     pose proof (sender_final_q gs cs1 (ack_pkt gr T_PUBACK V311 (k_pid p) None) T_PUBACK O1 R1 eq_refl eq_refl (or_introl eq_refl) M1 U1) as G3.
     unfold final. destruct (deliver gs cs1 _) as [[cs2 e3]|]; [|exact I].
     destruct (none (sends e3) && none (errors e3) && _); [|exact I].
-    split; [exact (f8_own gx cr cr1 Fr1 HOr)|congruence].
+    split; [exact (f8_own gx cr cr1 Fr1 HOr)|]. split; [congruence|exact Fr1].
   - (* QoS 2 *)
     pose proof (receiver_q2_x gr cr p Rr Har (conj Ht (conj Hv Hqq)) E5) as H2.
     destruct (deliver gr cr p) as [[cr1 e2]|]; [|exact I]. destruct H2 as (N2 & S2 & X2 & Rr1 & Ar1 & Q1).
@@ -64,7 +64,7 @@ Proof.
     pose proof (sender_final_q gs cs2 (ack_pkt gr T_PUBCOMP V311 (k_pid p) None) T_PUBCOMP O2 R2 eq_refl eq_refl (or_intror eq_refl) M2 U2) as G5.
     unfold final. destruct (deliver gs cs2 _) as [[cs3 e5]|]; [|exact I].
     destruct (none (sends e5) && none (errors e5) && _); [|exact I].
-    split; [exact (f8_own gx cr1 cr2 Fr2 (f8_own gx cr cr1 Fr1 HOr))|congruence].
+    split; [exact (f8_own gx cr1 cr2 Fr2 (f8_own gx cr cr1 Fr1 HOr))|]. split; [congruence|exact (f8_trans _ _ _ Fr2 Fr1)].
 Qed.
 
 Section Two.
@@ -86,8 +86,10 @@ Proof.
     - pose proof (exchange0_ok gs gr cs cr p Hi Hp) as K. destruct Hp as (_ & _ & Hq). rewrite Hq. change (0 =? 0) with true. cbv iota.
       destruct (exchange0 gs gr cs cr p) as [cs' cr' d| |]; [|exact I|exact I]. destruct K as (_ & _ & _ & F2 & _ & Qs).
       split; [exact (f8_own gr cr cr' F2 HOr)|exact Qs].
-    - pose proof (exchange_reverse gs gr gr cs cr p 1 Hi Hp (or_introl eq_refl) HOr) as K. destruct Hp as (_ & _ & Hq). rewrite Hq. change (1 =? 0) with false. cbv iota. exact K.
-    - pose proof (exchange_reverse gs gr gr cs cr p 2 Hi Hp (or_intror eq_refl) HOr) as K. destruct Hp as (_ & _ & Hq). rewrite Hq. change (2 =? 0) with false. cbv iota. exact K. }
+    - pose proof (exchange_reverse gs gr gr cs cr p 1 Hi Hp (or_introl eq_refl) HOr) as K. destruct Hp as (_ & _ & Hq). rewrite Hq. change (1 =? 0) with false. cbv iota.
+      destruct (exchange gs gr cs cr p); [|exact I|exact I]. destruct K as (K1 & K2 & _). split; assumption.
+    - pose proof (exchange_reverse gs gr gr cs cr p 2 Hi Hp (or_intror eq_refl) HOr) as K. destruct Hp as (_ & _ & Hq). rewrite Hq. change (2 =? 0) with false. cbv iota.
+      destruct (exchange gs gr cs cr p); [|exact I|exact I]. destruct K as (K1 & K2 & _). split; assumption. }
   destruct (exchange_any gs gr cs cr p) as [cs' cr' d| |]; [|exact H|exact H].
   destruct H as [Hd Hi']. destruct G as [G1 G2]. split; [exact Hd|]. split; [exact Hi'|].
   destruct Hi' as (_ & Rs' & As' & Rr' & Ar' & _). destruct Hr as (_ & _ & _ & _ & _ & Hasc).
